@@ -51,6 +51,10 @@ class Outcome:
         self.sample = None
         self.sim_time_ns = 0
         self.sets = {}
+        self.items = []        # non-trivial cases finer than the scenario: (scenario, fault) / (scenario, variant) ...
+
+    def item(self, text):
+        self.items.append(text)
 
     def count(self, k, n=1):
         self.counters[k] = self.counters.get(k, 0) + n
@@ -394,7 +398,11 @@ def lane_main(args):
                 agg["counters"][k] = agg["counters"].get(k, 0) + v
             for k, v in out.sets.items():
                 agg["sets"].setdefault(k, set()).update(v)
-            if out.nontrivial:
+            if out.items:
+                sd = spec_digest(spec)
+                agg["nontrivial_digests"].extend(hashlib.sha256((sd + "|" + it).encode()).hexdigest()[:16]
+                                                 for it in set(out.items))
+            elif out.nontrivial:
                 agg["nontrivial_digests"].append(out.digest or spec_digest(spec))
             if out.sample is not None and len(agg["samples"]) < 3:
                 agg["samples"].append(out.sample)
